@@ -27,7 +27,13 @@ using namespace Clipper2Lib;
 
 struct Rng {
   uint64_t s;
-  explicit Rng(uint64_t seed) : s(seed * 0x9E3779B97F4A7C15ull + 0x1234567ull) {}
+  explicit Rng(uint64_t seed) {
+    // scramble the seed: consecutive seeds must not give shifted copies of one stream
+    uint64_t z = seed + 0x1234567ull;
+    z = (z ^ (z >> 33)) * 0xFF51AFD7ED558CCDull;
+    z = (z ^ (z >> 33)) * 0xC4CEB9FE1A85EC53ull;
+    s = z ^ (z >> 33);
+  }
   uint64_t next() {  // splitmix64
     uint64_t z = (s += 0x9E3779B97F4A7C15ull);
     z = (z ^ (z >> 30)) * 0xBF58476D1CE4E5B9ull;
